@@ -20,6 +20,12 @@ type recFs struct {
 	faultK int    // index of the call to fail (-1: none)
 	kind   string // "error" | "short1" | "short0"
 	n      int
+	// calls on one file (OpenFile of a path and Write / Close / Stat on the file it returned), per path: what one
+	// variable write did when several callers use the filesystem at once
+	plog map[string][]string
+	// gate, when set, is called at the entry of every Write on a file, before the call is recorded and carried out: a
+	// caller-supplied filesystem may take its time (C11: it parks the Write until the other writers have reached theirs)
+	gate func(path string)
 }
 
 var errInjected = errors.New("injected fault")
@@ -38,6 +44,28 @@ func (r *recFs) step(s string) bool {
 	}
 	r.log = append(r.log, s)
 	return fail
+}
+
+// stepAt is step for a call that belongs to one file
+func (r *recFs) stepAt(path, s string) bool {
+	fail := r.step(s)
+	if fail {
+		s += "!"
+	}
+	r.mu.Lock()
+	if r.plog == nil {
+		r.plog = map[string][]string{}
+	}
+	r.plog[path] = append(r.plog[path], s)
+	r.mu.Unlock()
+	return fail
+}
+
+// LogOf returns the calls made on one file
+func (r *recFs) LogOf(path string) []string {
+	r.mu.Lock()
+	defer r.mu.Unlock()
+	return append([]string{}, r.plog[path]...)
 }
 
 func (r *recFs) Log() []string { r.mu.Lock(); defer r.mu.Unlock(); return append([]string{}, r.log...) }
@@ -69,7 +97,7 @@ func (r *recFs) Open(name string) (afero.File, error) {
 	return r.wrap(f, name), nil
 }
 func (r *recFs) OpenFile(name string, flag int, perm os.FileMode) (afero.File, error) {
-	if r.step(fmt.Sprintf("openfile(%s,%d,%d)", name, flag, perm)) {
+	if r.stepAt(name, fmt.Sprintf("openfile(%s,%d,%d)", name, flag, perm)) {
 		return nil, errInjected
 	}
 	f, err := r.inner.OpenFile(name, flag, perm)
@@ -123,7 +151,10 @@ type recFile struct {
 }
 
 func (f *recFile) Write(p []byte) (int, error) {
-	if f.r.step("write(" + hx(p) + ")") {
+	if f.r.gate != nil {
+		f.r.gate(f.path)
+	}
+	if f.r.stepAt(f.path, "write("+hx(p)+")") {
 		switch f.r.kind {
 		case "short1":
 			if len(p) > 0 {
@@ -139,7 +170,7 @@ func (f *recFile) Write(p []byte) (int, error) {
 	return f.File.Write(p)
 }
 func (f *recFile) Read(p []byte) (int, error) {
-	if f.r.step(fmt.Sprintf("read(%d)", len(p))) {
+	if f.r.stepAt(f.path, fmt.Sprintf("read(%d)", len(p))) {
 		switch f.r.kind {
 		case "short1":
 			if len(p) > 1 {
@@ -154,36 +185,36 @@ func (f *recFile) Read(p []byte) (int, error) {
 	return f.File.Read(p)
 }
 func (f *recFile) Close() error {
-	if f.r.step("close") {
+	if f.r.stepAt(f.path, "close") {
 		f.File.Close()
 		return errInjected
 	}
 	return f.File.Close()
 }
 func (f *recFile) Stat() (os.FileInfo, error) {
-	if f.r.step("stat") {
+	if f.r.stepAt(f.path, "stat") {
 		return nil, errInjected
 	}
 	return f.File.Stat()
 }
 func (f *recFile) WriteAt(p []byte, off int64) (int, error) {
-	f.r.step(fmt.Sprintf("writeat(%s,%d)", hx(p), off))
+	f.r.stepAt(f.path, fmt.Sprintf("writeat(%s,%d)", hx(p), off))
 	return f.File.WriteAt(p, off)
 }
 func (f *recFile) WriteString(s string) (int, error) {
-	f.r.step("writestring(" + hx([]byte(s)) + ")")
+	f.r.stepAt(f.path, "writestring("+hx([]byte(s))+")")
 	return f.File.WriteString(s)
 }
 func (f *recFile) Truncate(n int64) error {
-	f.r.step(fmt.Sprintf("truncate(%d)", n))
+	f.r.stepAt(f.path, fmt.Sprintf("truncate(%d)", n))
 	return f.File.Truncate(n)
 }
 func (f *recFile) Seek(o int64, w int) (int64, error) {
-	f.r.step(fmt.Sprintf("seek(%d,%d)", o, w))
+	f.r.stepAt(f.path, fmt.Sprintf("seek(%d,%d)", o, w))
 	return f.File.Seek(o, w)
 }
 func (f *recFile) ReadAt(p []byte, off int64) (int, error) {
-	f.r.step(fmt.Sprintf("readat(%d,%d)", len(p), off))
+	f.r.stepAt(f.path, fmt.Sprintf("readat(%d,%d)", len(p), off))
 	return f.File.ReadAt(p, off)
 }
-func (f *recFile) Sync() error { f.r.step("sync"); return f.File.Sync() }
+func (f *recFile) Sync() error { f.r.stepAt(f.path, "sync"); return f.File.Sync() }
